@@ -293,7 +293,11 @@ func (r *run) judge(o judgeOpts) []finding {
 			// An injected Unlock fault leaves the key locked by construction (vstore.Locker does
 			// not release the inner lock): waiters never return. Only that is excused.
 			if !(r.fired && r.plan.Kind == "unlock") {
-				add("deadlock", "workers "+strings.Join(r.out.Blocked, ",")+" never finished")
+				sig := "deadlock"
+				if r.sc.ReuseCtx {
+					sig += "|reused-request-ctx"
+				}
+				add(sig, "workers "+strings.Join(r.out.Blocked, ",")+" never finished")
 			}
 		}
 	}
